@@ -61,7 +61,13 @@ class P(Process):
                                        '_emit': True})]
         if self.parameters.get('reverse_ports'):
             items.reverse()
-        return {'s': dict(items)}
+        # two ports that are themselves variables, both wired to one
+        # top-level variable (accumulate: their updates commute)
+        leaf = {'_default': 0, '_emit': True}
+        ports = [('s', dict(items)), ('ta', dict(leaf)), ('tb', dict(leaf))]
+        if self.parameters.get('reverse_ports'):
+            ports.reverse()
+        return dict(ports)
 
     def calculate_timestep(self, states):
         return CTX['ts'][self.name]
@@ -75,8 +81,12 @@ class P(Process):
         CTX['inv'].append(dict(name=self.name, g=e.global_time,
                                c=CTX['applies'], z=states['s']['z'],
                                nrows=len(stubs.SINK['rows'])))
-        return {'s': {'z': CTX['deltas'][key],
-                      'own_' + self.name: states['s']['z']}}
+        upd = [('s', {'z': CTX['deltas'][key],
+                      'own_' + self.name: states['s']['z']}),
+               ('ta', 1), ('tb', 10)]
+        if self.parameters.get('reverse_ports'):
+            upd.reverse()
+        return dict(upd)
 
 
 class S(Step):
@@ -327,7 +337,10 @@ def run_once(ctx, cfg, order, sorder, init_keys, reverse):
     sink = stubs.reset_sink()
     procs = {n: P({'name': n, 'reverse_ports': reverse}) for n in order}
     topo_names = list(reversed(order)) if reverse else list(order)
-    topology = {n: {'s': ('s',)} for n in topo_names}
+    wires = [('s', ('s',)), ('ta', ('tally',)), ('tb', ('tally',))]
+    if reverse:
+        wires.reverse()
+    topology = {n: dict(wires) for n in topo_names}
     kwargs = {}
     if snames:
         kwargs['steps'] = {n: (Dep({'name': n}) if n == 'dep'
@@ -396,6 +409,18 @@ def body(ctx, cfg):
             for a, b in itertools.combinations(grp, 2):
                 layer.append(AND(a['c'] == b['c'], EQ(a['z'], b['z']),
                                  EQ(a['mark'], b['mark'])))
+    # both leaf ports of every applied update reached the shared variable
+    tally = []
+    for order, sorder, r in runs[:2]:
+        for row in r['rows']:
+            n_applied = 0
+            for a in r['inv']:
+                ts = CTX['ts'][a['name']]
+                end = ite(a['g'] + ts <= CTX['T'], a['g'] + ts, CTX['T'])
+                n_applied = n_applied + ite(end <= row['time'], 1, 0)
+            tally.append(EQ(row.get('tally'), 11 * n_applied))
+    ctx.claim('C04.committed', AND(tally), sig='two-leaf-ports-on-one-variable',
+              info=lambda: dict(rows=runs[0][2]['rows']))
     ctx.claim('C04.same_instant', AND(same), sig='same_instant')
     ctx.claim('C04.committed', AND(committed), sig='committed')
     if snames:
@@ -410,6 +435,7 @@ def body(ctx, cfg):
             continue
         for a, b in zip(base, rows):
             eq.append(EQ(a['time'], b['time']))
+            eq.append(EQ(a.get('tally'), b.get('tally')))
             eq.append(set(a['s']) == set(b['s']))
             for key in a['s']:
                 if key in b['s']:
